@@ -404,8 +404,14 @@ def foreign_side(ctx, blobs):
         # as it is in the key (0xD1 || len4 || subpackets)
         try:
             imgdata = bytes(range(64)) * 2
-            for enc_octet in (1, 100):
-                ua = build.sub_len(1 + 16 + len(imgdata)) + b'\x01' + b'\x10\x00\x01' + bytes([enc_octet]) + bytes(12) + imgdata
+            # ... and image headers as other producers may write them: reserved octets that are not zero, a longer header of another version,
+            # the subpacket length in its five-octet form - whatever it looks like, the attribute is certified as the octets it consists of
+            for enc_octet, ihdr, lform in ((1, None, None), (100, None, None), (1, b'\x10\x00\x01\x01' + bytes(range(1, 13)), None), (1, b'\x14\x00\x02\x01' + bytes(16), None),
+                                           (1, None, 5), (1, b'\x10\x00\x01\x01' + b'\xff' * 12, 2)):
+                ihdr_ = ihdr if ihdr is not None else b'\x10\x00\x01' + bytes([enc_octet]) + bytes(12)
+                img_ = imgdata if lform != 2 else imgdata * 2
+                ua = build.sub_len(1 + len(ihdr_) + len(img_), lform) + b'\x01' + ihdr_ + img_
+                enc_octet = '%d%s%s' % (enc_octet, ', image header %s' % ihdr_[:4].hex() + ('' if ihdr is None else ' (unusual)'), '' if lform is None else ', %d-octet subpacket length' % lform)
                 t[0] += 1
                 cert, hin = build.sig_packet(fk, 0x13, 'sha256', [], [], build.subject_octets(0x13, primary=fk.pub_body, uid=ua, isuid=False), created=t[0])
                 kb2 = kblob + build.pkt(17, ua) + cert
@@ -416,7 +422,7 @@ def foreign_side(ctx, blobs):
                     so = next(x for x in uao.__sig__)
                     res = sigs.verify_outcome(pub2, uao, so)
                 ev.append({'k': 'foreign', 'sig': blobs.add(cert), 'subj': sigs.subj_cert(blobs, kb2, fk.fingerprint.hex(), ua), 'signed_over': blobs.add(hin),
-                           'clause': 'C02.indep-signer', 'label': '%s self-certification of a user attribute, image encoding %d' % (kind, enc_octet), 'accepted': True, 'result': res})
+                           'clause': 'C02.indep-signer', 'label': '%s self-certification of a user attribute, image encoding %s' % (kind, enc_octet), 'accepted': True, 'result': res})
         except Exception as ex:
             ctx.note('user attribute certification (%s): %s' % (kind, repr(ex)[:100]))
         # the self-signatures built into the foreign key itself: the whole key must verify under PGPy
